@@ -38,11 +38,28 @@ Definition updatable (m : msg) : bool := match m with MUser _ | MSeq _ => true |
 Definition recv_from (w : who) (log : list ev) : list msg :=
   flat_map (fun e => match e with ERecv w' m => if who_eqb w w' then [m] else [] | _ => [] end) log.
 
+(* what sender w got rid of, in order: taken by the loop, or dropped because its Send gave up after cancellation *)
+Definition sent_from (w : who) (log : list ev) : list msg :=
+  flat_map (fun e => match e with
+                     | ERecv w' m | EDrop w' m => if who_eqb w w' then [m] else []
+                     | _ => [] end) log.
+
+(* a Send gives up only once the context has been cancelled: no EDrop before the first ECancel *)
+Fixpoint no_drop_before_cancel (log : list ev) : bool :=
+  match log with
+  | [] => true
+  | ECancel :: _ => true
+  | EDrop _ _ :: _ => false
+  | _ :: rest => no_drop_before_cancel rest
+  end.
+
 (* (iv) per-sender order and no invention: what the loop took from sender i is a prefix of what i sends, and
    together with what i still holds it is exactly i's script *)
 Definition per_sender_ok (scripts remaining : list (list msg)) (log : list ev) : bool :=
-  forallb (fun i => list_eqb msg_eqb (recv_from (WSender i) log ++ nth i remaining []) (nth i scripts []))
+  forallb (fun i => list_eqb msg_eqb (sent_from (WSender i) log ++ nth i remaining []) (nth i scripts []))
           (seq 0 (length scripts)).
+(* (until the context is cancelled nothing is dropped, so what the loop took from i is then a prefix of i's script;
+    afterwards it is a subsequence: see no_drop_before_cancel) *)
 
 (* (iii) exactly once: Update is called with exactly the updatable messages received, in receive order, each
    right after its receipt; `held` = the message received but not yet processed, if any *)
@@ -54,9 +71,10 @@ Fixpoint updates_follow (held : option msg) (log : list ev) : bool :=
     match held with Some m' => negb (updatable m') && updates_follow (Some m) rest | None => updates_follow (Some m) rest end
   | EUpdate m _ :: rest =>
     match held with Some m' => msg_eqb m m' && updatable m && updates_follow None rest | None => false end
-  | EExit :: rest => updates_follow None rest
-  | EView :: rest | EHand _ :: rest =>
-    (* the held message, if not updatable, has been disposed of by now *)
+  | EExit :: rest | EFail :: rest => updates_follow None rest      (* a failing callback loses the message it held *)
+  | EView :: rest =>
+    (* the held message, if not updatable, has been disposed of by now (EHand is no marker: the Init forwarder's
+       hand-over happens on another goroutine) *)
     match held with Some m' => negb (updatable m') && updates_follow None rest | None => updates_follow None rest end
   | _ :: rest => updates_follow held rest
   end.
@@ -93,9 +111,14 @@ Fixpoint sub_multiset (a b : list nat) : option (list nat) :=      (* b minus a,
 (* every hand-over is of an owed command, none twice: handed is a sub-multiset of owed *)
 Definition handed_owed (init_cmd : option cmdid) (log : list ev) : bool :=
   match sub_multiset (hands log) (owed init_cmd log) with Some _ => true | None => false end.
-(* when the loop is idle, has not exited and the dispatcher lives, nothing is owed any more *)
-Definition all_handed (init_cmd : option cmdid) (log : list ev) : bool :=
-  match sub_multiset (hands log) (owed init_cmd log) with Some [] => true | _ => false end.
+(* when the loop is at its select nothing is owed any more, except Init's command while its forwarder goroutine has
+   not been served yet (pending_init = the forwarder's command, if it is still waiting) *)
+Definition all_handed (init_cmd pending_init : option cmdid) (log : list ev) : bool :=
+  match sub_multiset (hands log) (owed init_cmd log), pending_init with
+  | Some [], None => true
+  | Some [c], Some c' => Nat.eqb c c'
+  | _, _ => false
+  end.
 
 (* each hand-over starts exactly one goroutine, which invokes the command exactly once, off the loop:
    the starts on dispatcher goroutines are the hand-overs, in order, on goroutines 0,1,2,... *)
@@ -113,8 +136,9 @@ Fixpoint delivered_after_end (cres : cmdid -> msg) (w : who) (ended : option cmd
   | [] => true
   | EEnd w' c :: rest => if who_eqb w w' then match ended with None => delivered_after_end cres w (Some c) rest | Some _ => false end
                          else delivered_after_end cres w ended rest
-  | ERecv w' m :: rest => if who_eqb w w' then match ended with Some c => msg_eqb m (cres c) && delivered_after_end cres w None rest | None => false end
-                          else delivered_after_end cres w ended rest
+  | ERecv w' m :: rest | EDrop w' m :: rest =>
+    if who_eqb w w' then match ended with Some c => msg_eqb m (cres c) && delivered_after_end cres w None rest | None => false end
+    else delivered_after_end cres w ended rest
   | _ :: rest => delivered_after_end cres w ended rest
   end.
 Definition results_once (cres : cmdid -> msg) (log : list ev) : bool :=
@@ -126,8 +150,8 @@ Definition results_once (cres : cmdid -> msg) (log : list ev) : bool :=
 (* the events of sequence goroutine k and of its errgroup members *)
 Definition of_seq (k : nat) (e : ev) : bool :=
   match e with
-  | ERecv (WSeq k') _ | EStart (WSeq k') _ | EEnd (WSeq k') _ => Nat.eqb k k'
-  | ERecv (WGrp k' _) _ | EStart (WGrp k' _) _ | EEnd (WGrp k' _) _ => Nat.eqb k k'
+  | ERecv (WSeq k') _ | EDrop (WSeq k') _ | EStart (WSeq k') _ | EEnd (WSeq k') _ => Nat.eqb k k'
+  | ERecv (WGrp k' _) _ | EDrop (WGrp k' _) _ | EStart (WGrp k' _) _ | EEnd (WGrp k' _) _ => Nat.eqb k k'
   | _ => false
   end.
 
@@ -174,7 +198,7 @@ Definition sq_step (cres : cmdid -> msg) (rest : list (option cmdid)) (st : sq_s
       | m => Some (rest, QSending m)
       end
     else None
-  | QSending m, ERecv (WSeq _) m' => if msg_eqb m m' then Some (rest, QIdle) else None
+  | QSending m, ERecv (WSeq _) m' | QSending m, EDrop (WSeq _) m' => if msg_eqb m m' then Some (rest, QIdle) else None
   | QGroupStart ((j, c) :: todo) all, EStart (WGrp _ j') c' =>
     if Nat.eqb j j' && Nat.eqb c c' then
       match todo with
@@ -187,7 +211,7 @@ Definition sq_step (cres : cmdid -> msg) (rest : list (option cmdid)) (st : sq_s
     | Some open' => Some (rest, QGroup open')
     | None => None
     end
-  | QGroup open, ERecv (WGrp _ j) m =>
+  | QGroup open, ERecv (WGrp _ j) m | QGroup open, EDrop (WGrp _ j) m =>
     match upd_member j (fun c' b => if b && msg_eqb m (cres c') then Some None else None) open with
     | Some [] => Some (rest, QIdle)
     | Some open' => Some (rest, QGroup open')
@@ -215,6 +239,7 @@ Definition seq_msgs (log : list ev) : list (list (option cmdid)) :=
 
 (* C03: every sequence goroutine follows the pattern: elements strictly one after another, in order, nil entries
    skipped, the next element started only after the previous element's message (every message of its batch) was
-   taken by the event loop *)
+   taken by the event loop - or, once the context has been cancelled (no_drop_before_cancel), dropped by a Send
+   that gave up *)
 Definition sequences_ok (cres : cmdid -> msg) (log : list ev) : bool :=
   forallb (fun kc => seq_walk cres (fst kc) (snd kc) QIdle log) (combine (seq 0 (length (seq_msgs log))) (seq_msgs log)).
